@@ -525,9 +525,13 @@ pub mod inner {
         ///
         /// The length of each slice equals [`self.width()`](Self::width).
         pub fn rows(&self) -> impl Iterator<Item = &[T]> {
+            let (w, h) = (self.dims.0 as usize, self.dims.1 as usize);
+            // Take only `h` rows: the data may extend past the last row.
+            // A zero stride implies zero width; chunk size must be nonzero
             self.data
-                .chunks(self.stride as usize)
-                .map(|row| &row[..self.dims.0 as usize])
+                .chunks(self.stride.max(1) as usize)
+                .take(h)
+                .map(move |row| &row[..w])
         }
 
         /// Returns an iterator over the elements of `self` in row-major order.
@@ -554,9 +558,13 @@ pub mod inner {
         ///
         /// The length of each slice equals [`self.width()`](Self::width).
         pub fn rows_mut(&mut self) -> impl Iterator<Item = &mut [T]> {
+            let (w, h) = (self.dims.0 as usize, self.dims.1 as usize);
+            // Take only `h` rows: the data may extend past the last row.
+            // A zero stride implies zero width; chunk size must be nonzero
             self.data
-                .chunks_mut(self.stride as usize)
-                .map(|row| &mut row[..self.dims.0 as usize])
+                .chunks_mut(self.stride.max(1) as usize)
+                .take(h)
+                .map(move |row| &mut row[..w])
         }
 
         /// Returns a mutable iterator over all the elements of `self`,
